@@ -12,7 +12,7 @@ import "strconv"
 // Representation invariant of the tokenizer: positions are ordered and inside the
 // input, and the input contains no NUL byte (Tokenize replaces them), which is what
 // makes every step of consumeValueList consume at least one byte.
-//@ type tokenizer invariant 0 <= self.previousPos && self.previousPos <= self.pos && self.pos <= len(self.src) && forall(i, 0, len(self.src), self.src[i] != 0)
+//@ type tokenizer invariant 0 <= self.previousPos && self.previousPos <= self.pos && self.pos <= len(self.src) && forall(i, 0, len(self.src), self.src[i] != 0) && -1 <= self.lineIndex && (self.lineIndex < self.previousPos || self.lineIndex == -1) && forall(i, self.lineIndex + 1, self.previousPos, self.src[i] != '\n')
 //@   props C06 C07 C01
 
 // the two anchored regular expressions of this package (assumed from their source text:
@@ -268,6 +268,9 @@ func vNameStartByte(c byte) bool {
 //@   requires tk != nil
 //@   modifies tk.line, tk.lineIndex, tk.previousPos
 //@   ensures tk.previousPos == tk.pos
+// source positions: the column is counted from the LAST newline before the position (none: from the start)
+//@   ensures[column] result.Column == tk.pos - tk.lineIndex && -1 <= tk.lineIndex && tk.lineIndex < tk.pos && forall(i, tk.lineIndex + 1, tk.pos, tk.src[i] != '\n')
+//@   ensures[line] result.Line == tk.line && tk.line >= old(tk.line) && (tk.line == old(tk.line) <==> tk.lineIndex == old(tk.lineIndex))
 
 // A value list ends at the end of the input or just after its closing delimiter:
 // nothing of a nested construct leaks into the enclosing one (exact consumption).
@@ -280,6 +283,7 @@ func vNameStartByte(c byte) bool {
 //@   ensures old(tk.pos) <= tk.pos
 //@   ensures[exact] tk.pos == len(tk.src) || (endChar != 0 && tk.pos > old(tk.pos) && tk.src[tk.pos-1] == endChar)
 //@   loop 1 invariant L == len(tk.src) && old(tk.pos) <= tk.pos && tk.pos <= L && 0 <= tk.previousPos && tk.previousPos <= tk.pos && fresh(out)
+//@   loop 1 invariant[line-start] -1 <= tk.lineIndex && (tk.lineIndex < tk.previousPos || tk.lineIndex == -1) && forall(i, tk.lineIndex + 1, tk.previousPos, tk.src[i] != '\n')
 //@   loop 1 decreases L - tk.pos
 //@   loop 2 invariant 0 <= urlPos
 //@   loop 2 decreases L - urlPos
@@ -697,6 +701,25 @@ func vBadPairsCoverTable() (int, []string) {
 //@   nopanic
 //@   modifies nothing
 //@   requires value != "" && forall(i, 0, len(value), value[i] != 0)
+
+// an at-rule is written as a statement (`@name prelude;`) only when it HAS no block: a block, even an
+// empty one (`@page {}`), is written as a block (CSS Syntax 3 §9, "consume an at-rule" keeps the two apart)
+//@ func (AtRule).serializeTo
+//@   props C20
+//@   modifies anything
+//@   requires writer != nil && t.AtKeyword != "" && forall(i, 0, len(t.AtKeyword), t.AtKeyword[i] != 0)
+//@   call WriteString#3 assert[statement-iff-no-block] arg1 == ";" && t.Content == nil
+//@   call WriteString#4 assert[block-kept] arg1 == "{" && t.Content != nil
+//@   call WriteString#5 assert arg1 == "}"
+//@   call serializeTo#2 assert arg0 == t.Content
+// a declaration is name, colon, value, and `!important` exactly when it is flagged
+//@ func (Declaration).serializeTo
+//@   props C20
+//@   modifies anything
+//@   requires writer != nil && t.Name != "" && forall(i, 0, len(t.Name), t.Name[i] != 0)
+//@   call WriteString#2 assert arg1 == ":"
+//@   call WriteString#3 assert[important] arg1 == "!important" && t.Important
+//@   call serializeTo#1 assert arg0 == t.Value
 
 //@ func Serialize
 //@   props C20
